@@ -133,15 +133,19 @@ fn open_with(inner: Any, strict: bool, maxbuf: Option<usize>) -> io::Result<cfb:
     o.open_with(inner)
 }
 
-fn start_history(hist: &Value, tmpdir: &str) -> Result<Live, Value> {
+fn start_history(hist: &Value, tmpdir: &str, dict: &Dict) -> Result<Live, Value> {
     let hid = hist["id"].as_str().unwrap_or("h");
     let maxbuf = hist["maxbuf"].as_u64().map(|n| n as usize);
-    if let Some(img) = hist.get("image") {
-        // start from an existing image (RLE of the whole file or a path)
-        let bytes = if let Some(p) = img.as_str() {
+    if hist.get("image").is_some() || hist.get("layout").is_some() {
+        // start from an existing image: a layout description for the independent
+        // builder, the RLE of the whole file, or a path
+        let img = hist.get("image").cloned().unwrap_or(Value::Null);
+        let bytes = if hist.get("layout").is_some() {
+            cfb_verif_harness::build::build_image(&hist["layout"], dict)
+        } else if let Some(p) = img.as_str() {
             std::fs::read(p).map_err(|e| json!({"k":"err","e":"Other","msg":e.to_string()}))?
         } else {
-            rle::from_json(img)
+            rle::from_json(&img)
         };
         let (any, snap, chunks) = new_backend(hist, bytes, tmpdir, hid);
         let strict = hist["open_mode"].as_str() == Some("strict");
@@ -484,7 +488,15 @@ fn main() {
         reset.insert("id".into(), hist["id"].clone());
         reset.insert("ver".into(), hist["ver"].clone());
         reset.insert("cfg".into(), hist.get("cfg").cloned().unwrap_or(json!("")));
-        let started = catch_unwind(AssertUnwindSafe(|| start_history(hist, &tmpdir)));
+        if let Some(t) = hist.get("tree") {
+            // the logical content the image is supposed to encode (from the generator)
+            reset.insert("tree".into(), t.clone());
+        }
+        if let Some(x) = hist.get("expect") {
+            reset.insert("expect".into(), x.clone());
+        }
+        reset.insert("open_mode".into(), hist.get("open_mode").cloned().unwrap_or(json!("permissive")));
+        let started = catch_unwind(AssertUnwindSafe(|| start_history(hist, &tmpdir, &dict)));
         let mut live = match started {
             Ok(Ok(l)) => {
                 reset.insert("res".into(), ok(json!("unit")));
